@@ -164,10 +164,16 @@ def run_clear_job(prog, job):
                 for o in call_all(eng, s_, append, [ids[0], ids[k], Ref(cell, ())]):
                     if o.kind == 'return': nxt.append((o.state, ids))
             runs = nxt
-        return runs
+        # ... then one removal (the first node): its children are spliced out, its slot goes to the free list
+        nxt = []
+        for (s_, ids) in runs:
+            for o in call_all(eng, s_, find_fn(prog, 'NodeId', 'remove'), [ids[0], Ref(cell, ())]):
+                if o.kind == 'return': nxt.append((o.state, ids))
+                else: nxt.append((o.state, None))
+        return nxt
     (rs, rc) = ref_states[0]
     ref_runs = continuation(rs, rc)
-    if len(ref_runs) != 1: raise Unsupported('reference continuation forked (%d)' % len(ref_runs))
+    if len(ref_runs) != 1 or ref_runs[0][1] is None: raise Unsupported('reference continuation forked or panicked (%d)' % len(ref_runs))
     ref_state, ref_ids = ref_runs[0]
     Vref = View(ref_state.store[rc])
     for o in call_all(eng, st, find_fn(prog, 'Arena', 'clear'), [aref]):
@@ -182,7 +188,14 @@ def run_clear_job(prog, job):
         check_obligations(eng, list(o.state.pc), ob, prefixes, res, mv)
         for (s2, ids) in continuation(o.state, acell):
             res['paths'] += 1; res['steps'] += s2.steps
+            if ids is None:
+                check_obligations(eng, list(s2.pc), [('C13.clear_continuation_no_panic', F_), ('C08.clear_continuation_no_panic', F_)], prefixes, res, mv); continue
             ob = []
+            Vc = View(s2.store[acell])
+            for k in range(1, K):
+                # the nodes that were not removed keep their payload (C08), whatever was pending on the free list before clear()
+                sl = zb(ids[k].f[0].f[0])
+                ob.append(('C08.payload_kept_after_clear_continuation[%d]' % k, z3.And(sel(Vc.is_data, sl, F_), sel(Vc.data, sl, BV8(0)) == BV8(100 + k))))
             for k in range(K):
                 ob.append(('C13.clear_same_ids_as_fresh[%d]' % k, z3.And(zb(ids[k].f[0].f[0]) == zb(ref_ids[k].f[0].f[0]),
                                                                              zb(ids[k].f[1].f[0]) == zb(ref_ids[k].f[1].f[0]))))
